@@ -304,3 +304,191 @@ for _f in ('sp_dgemv', 'sp_zgemv'):
                  'externs': dict(_B.LOCAL_EXTERNS,
                                  **{'read:spbuf': read_spbuf}),
                  'config': {}}
+
+
+# ----------------------------------------------------------------- sp_symv
+# y := alpha*A_block*x + beta*y for the symmetric n x n block of a sparse A at
+# (oi, oj), of which only the triangle `uplo` is referenced: a stored entry
+# a = A[oi+i, oj+j] inside the block is used iff it lies in that triangle
+# (uplo 'U': i <= j, 'L': i >= j); it contributes a*x_j to y_i and, if it is
+# off the diagonal, a*x_i to y_j.
+def init_sp_symv(ex, st, params):
+    o = ex.new_obj('A')
+    ex.axioms.append(o.issp)
+    ex.axioms.extend(o.valid_axioms())
+    ex.axioms += [o.sp_ncols <= 2**59, o.sp_nnz <= 2**58]
+    g = {}
+    for p in params:
+        nm = p['name']
+        if nm == 'uplo':
+            v = ex.fresh_int('uplo', 'char')
+            ex.axioms.append(z3.Or(v.t == ord('U'), v.t == ord('L')))
+            st.vars[p['id']] = v
+            g[nm] = v.t
+        elif nm in ('n', 'oA', 'ix', 'iy'):
+            v = ex.fresh_int(nm, 'int')
+            st.vars[p['id']] = v
+            g[nm] = v.t
+        elif nm in ('alpha', 'beta'):
+            st.vars[p['id']] = StructV('number', {
+                'd': FltV(z3.Real(nm + '.d'), 'double'),
+                'z': FltV(z3.Real(nm + '.z'), 'double complex'),
+                'i': ex.fresh_int(nm + '.i', 'long')})
+        elif nm == 'A':
+            st.vars[p['id']] = PtrV(None, 0, 'ccs', obj=o)
+        elif nm in ('x', 'y'):
+            sz = z3.Int('len(%s)' % nm)
+            esz = z3.If(o.sp_id == 2, 16, 8)
+            r = Region('argbuf', nm, sz * esz)
+            st.vars[p['id']] = PtrV(r, 0, 'void')
+            g[nm] = (r, sz)
+        else:
+            raise Unsupported('parameter %s of the sparse product' % nm)
+    n, oA, ix, iy = g['n'], g['oA'], g['ix'], g['iy']
+    from engine.cvc.exec import cdiv, crem
+    nr, nc = o.sp_nrows, o.sp_ncols
+
+    def vec(ln, inc):
+        a_ = z3.If(inc >= 0, inc, -inc)
+        return z3.If(ln > 0, 1 + (ln - 1) * a_, 0)
+    oi, oj = crem(oA, nr), cdiv(oA, nr)
+    st.pc.extend([n >= 0, oA >= 0, ix != 0, iy != 0,
+                  z3.Implies(n != 0, nr >= 1),
+                  g['x'][1] >= vec(n, ix), g['y'][1] >= vec(n, iy),
+                  z3.Implies(n != 0, z3.And(oi + n <= nr, oj + n <= nc)),
+                  o.sp_id == (1 if ex.fname == 'sp_dsymv' else 2)])
+    st.ghost['symv'] = dict(g, A=o, oi=oi, oj=oj)
+
+
+def post_sp_symv(ex, finished, extra_obs):
+    def ob(kind, pc, goal, text, line=0, force=None):
+        extra_obs.append(Oblig('%s:%s:%s' % (ex.fname, kind, text), kind,
+                               list(pc), z3.simplify(goal) if not isinstance(
+                                   goal, bool) else z3.BoolVal(goal), text,
+                               line, {'force': force} if force else None))
+    g = None
+    for st, kind, val in finished:
+        g = st.ghost.get('symv')
+        if g:
+            break
+    if not g:
+        ob('covered', [], False, 'the kernel was executed')
+        return {}
+    o, n, oi, oj, ix, iy, uplo = g['A'], g['n'], g['oi'], g['oj'], \
+        g['ix'], g['iy'], g['uplo']
+    cp = z3.Function('colptr(%s)' % o.name, z3.IntSort(), z3.IntSort())
+    ri = z3.Function('rowind(%s)' % o.name, z3.IntSort(), z3.IntSort())
+    xr, yr = g['x'][0], g['y'][0]
+    esz = z3.If(o.sp_id == 2, 16, 8)
+
+    def pos(t, inc):
+        return z3.If(inc > 0, inc * t, inc * (t + 1 - n))
+
+    def used(i_, j_):
+        return z3.And(i_ >= 0, i_ < n, z3.If(uplo == ord('U'), i_ <= j_,
+                                             i_ >= j_))
+    logs = ex.loop_log
+    nst = 0
+    for E in logs:
+        if E['ord'] == 0:
+            if E['counter'] is None:
+                ob('iteration-space', [], False, 'the column loop runs a '
+                   'counter up in unit steps', E['line'])
+                continue
+            c = E['head_env'][E['counter']].t
+            ob('iteration-space', E['entry_pc'], E['lo'] == 0,
+               'the column loop starts at the first column of the block',
+               E['line'])
+            ob('iteration-space', E['head_pc'], E['cond'] == (c < n),
+               'the column loop covers the n columns of the block',
+               E['line'])
+        if E['ord'] == 1:
+            jv = E['entry_env'].get('j')
+            if E['counter'] is None or not isinstance(jv, IntV):
+                ob('iteration-space', [], False, 'the entry loop runs a '
+                   'counter over the entries of the current column',
+                   E['line'], force='undecided')
+                continue
+            j = jv.t
+            k = E['head_env'][E['counter']].t
+            ob('iteration-space', E['entry_pc'], E['lo'] == cp(j + oj),
+               'the entry loop starts at colptr[oj + j]', E['line'])
+            ob('iteration-space', E['head_pc'], E['cond'] == (
+                k < cp(j + oj + 1)), 'the entry loop ends before '
+               'colptr[oj + j + 1]', E['line'])
+            i = ri(k) - oi
+            for b in E['body']:
+                ys = [s_ for s_ in b['fstores'] if s_[0] is yr]
+                if b['kind'] == 'break':
+                    # leaving the column early: every later entry of the
+                    # column (row indices increase inside a column) is
+                    # outside the referenced triangle
+                    k2 = z3.Int('k2?')
+                    hyp = list(b['pc']) + [k2 > k, k2 < cp(j + oj + 1),
+                                           ri(k2) > ri(k)]
+                    ob('kernel-definition', hyp, z3.Not(used(ri(k2) - oi,
+                                                             j)),
+                       'the entry loop is left early only when no later '
+                       'entry of the column lies in the referenced '
+                       'triangle', E['line'])
+                if len(ys) == 0:
+                    ob('kernel-definition', b['pc'], z3.Not(used(i, j)),
+                       'a stored entry is skipped only if it lies outside '
+                       'the block or outside the referenced triangle',
+                       E['line'])
+                    continue
+                nst += 1
+                ob('kernel-definition', b['pc'], z3.And(
+                    used(i, j), z3.If(i == j, len(ys) == 1, len(ys) == 2)),
+                    'an entry of the referenced triangle updates one element '
+                    'of y if it is on the diagonal and two otherwise',
+                    E['line'])
+                for q, (ty, tx) in enumerate(((i, j), (j, i))):
+                    if q >= len(ys):
+                        break
+                    r_, off_, sz_, val_, pc_, ln_, loads_ = ys[q]
+                    xl = [l_ for l_ in loads_ if l_[0] is xr]
+                    vl = [l_ for l_ in loads_
+                          if l_[0].name.endswith('.values')]
+                    yl = [l_ for l_ in loads_ if l_[0] is yr]
+                    gx = z3.Or([l_[1] == esz * pos(tx, ix) for l_ in xl]) \
+                        if xl else z3.BoolVal(False)
+                    gv = z3.Or([l_[1] == esz * k for l_ in vl]) if vl \
+                        else z3.BoolVal(False)
+                    gy = z3.Or([l_[1] == off_ for l_ in yl]) if yl else \
+                        z3.BoolVal(False)
+                    ob('kernel-definition', pc_, z3.And(
+                        off_ == esz * pos(ty, iy), gx, gv, gy),
+                        'the %s update of an entry a = A[i, j] adds a times '
+                        'x at the position of %s to y at the position of %s '
+                        '(BLAS stride convention)' % (
+                            ('first', 'j', 'i') if q == 0 else
+                            ('mirrored', 'i', 'j')), ln_)
+    done = set()
+    seen_sc = 0
+    for st, kind, val in finished:
+        for rec in st.calls:
+            if id(rec) in done or not rec.name.endswith('scal_'):
+                continue
+            done.add(id(rec))
+            seen_sc += 1
+            ints, ptrs = rec.args['ints'], rec.args['ptrs']
+            yp = ptrs.get('x')
+            absy = z3.If(iy >= 0, iy, -iy)
+            ob('kernel-definition', rec.pc, z3.And(
+                ints['n'] == n, ints['incx'] == absy, z3.BoolVal(
+                    isinstance(yp, PtrV) and yp.region is yr),
+                yp.off == 0 if isinstance(yp, PtrV) else False),
+                'y is scaled by beta over its whole strided extent: '
+                'scal(n, beta, y, |incy|)', rec.line)
+    ob('covered', [], seen_sc >= 1, 'the scaling of y by beta is reached')
+    ob('covered', [], nst >= 2, 'both triangles update y (%d store paths)' %
+       nst)
+    return {'loops': len(logs)}
+
+
+for _f in ('sp_dsymv', 'sp_zsymv'):
+    FUNCS[_f] = {'init': init_sp_symv, 'post': post_sp_symv,
+                 'externs': dict(_B.LOCAL_EXTERNS,
+                                 **{'read:spbuf': read_spbuf}),
+                 'config': {}}
